@@ -770,6 +770,7 @@ def check_addpath_direction(prog, r):
     parsing by addpath_rx; a codec function that reads the other direction's flag produces frames the peer's mirror-image codec
     cannot parse.  Sibling agreement over every PeerCodec function (and closures) that reads either flag."""
     n = 0
+    per_dir = {"addpath_tx": 0, "addpath_rx": 0}
     for k in crate_fns(prog, "rustybgp_packet"):
         nm = prog.ix[k]["name"]
         root = root_name(prog, k)
@@ -801,6 +802,7 @@ def check_addpath_direction(prog, r):
         if not reads:
             continue
         n += 1
+        per_dir[want] += 1
         r.analysed(root)
         other = reads - {want}
         if other:
@@ -808,4 +810,7 @@ def check_addpath_direction(prog, r):
                    "peer cannot parse the frame)" % (meth, "/".join(sorted(other)), "an encoder" if want.endswith("tx") else "a parser", want), fv.loc())
         else:
             r.ok("%s reads %s" % (short(nm), want))
-    r.floor("PeerCodec functions / closures reading an ADD-PATH direction flag", n, 5)
+    # how many functions share the reads is the maintainer's choice (one lookup in append_nlri or one per caller); what must
+    # exist is at least one reader on each side
+    r.floor("PeerCodec encoder functions / closures reading an ADD-PATH direction flag", per_dir["addpath_tx"], 1)
+    r.floor("PeerCodec parser functions / closures reading an ADD-PATH direction flag", per_dir["addpath_rx"], 1)
